@@ -132,8 +132,8 @@ theorem scanQ_nul (t : UInt8) : ∀ (n : Nat) (q : Bytes) (j : Nat) (rest : Byte
           rw [scanQ_plain _ _ _ h34 h92 hq.1, ih r j rest (by simp at hl; omega) hq.2 (by simp at hj; omega)]
           rfl
 
-/-- NUL or ';' written anywhere into an unquoted value makes the token scanner return `false` -/
-theorem scanTok_bad (t : UInt8) (b : UInt8) (hb : b = 0 ∨ b = 59) : ∀ (v : Bytes) (j : Nat) (rest : Bytes),
+/-- NUL, ';' or DQUOTE written anywhere into an unquoted value makes the token scanner return `false` -/
+theorem scanTok_bad (t : UInt8) (b : UInt8) (hb : b = 0 ∨ b = 59 ∨ b = 34) : ∀ (v : Bytes) (j : Nat) (rest : Bytes),
     v.all tokByte = true → j < v.length → scanTok (some t) (v.set j b ++ rest) = .reject := by
   intro v
   induction v with
@@ -143,14 +143,14 @@ theorem scanTok_bad (t : UInt8) (b : UInt8) (hb : b = 0 ∨ b = 59) : ∀ (v : B
     simp only [List.all_cons, Bool.and_eq_true] at hv
     match j with
     | 0 =>
-      rcases hb with h | h <;> subst h <;> simp [scanTok_cons]
+      rcases hb with h | h | h <;> subst h <;> simp [scanTok_cons]
     | j + 1 =>
       have hc := hv.1
       simp only [tokByte, Bool.and_eq_true, ne_eq, decide_eq_true_eq] at hc
-      obtain ⟨⟨⟨⟨h0, h32⟩, h9⟩, h44⟩, h59⟩ := hc
+      obtain ⟨⟨⟨⟨⟨h34, h0⟩, h32⟩, h9⟩, h44⟩, h59⟩ := hc
       simp only [List.set_cons_succ, List.cons_append]
       rw [scanTok_cons, ih j rest hv.2 (by simp at hj; omega)]
-      simp [h0, h32, h9, h44, h59]
+      simp [h34, h0, h32, h9, h44, h59]
 
 /-! ### the split of a rendering around one value -/
 
